@@ -288,14 +288,22 @@ def q_state_misc(d):
     return [S], lambda: (repr(S), S.tokenize(), S.stabilizers, S.N, S.L, len(S), S[0], S[:])
 
 
+def _then_edit(M, d):
+    # compose / inverse return new maps: the caller may go on and change the result in place - the operands must not follow
+    gl, gk = ref.parse(d['gen'])
+    M.rotate_by(B.np_pauli(gl, gk))
+    M.ps[d['i0'] % len(M.ps)] = (M.ps[d['i0'] % len(M.ps)] + 2) % 4
+    return M
+
+
 def q_compose(d):
     A = build('map', d); Bm = build('map', dict(d, rows=d['rows2']))
-    return [A, Bm], lambda: A.compose(Bm)
+    return [A, Bm], lambda: _then_edit(A.compose(Bm), d)
 
 
 def q_inverse(d):
     A = build('map', d)
-    return [A], lambda: (A.inverse(), repr(A))
+    return [A], lambda: (_then_edit(A.inverse(), d), repr(A))
 
 
 def q_to_state(d):
